@@ -1,6 +1,7 @@
 package main
 
 import (
+	"math"
 	"bytes"
 	"context"
 	"fmt"
@@ -93,6 +94,11 @@ var axioms = []axiom{
 	// STR: replacing one byte by one byte keeps the length and maps byte by byte
 	{[]string{"str_replace"}, "(assert (forall ((s Str) (x Str) (y Str)) (! (=> (and (= (slen x) 1) (= (slen y) 1)) (= (slen (str_replace s x y)) (slen s))) :pattern ((str_replace s x y)))))", "STR"},
 	{[]string{"str_replace"}, "(assert (forall ((s Str) (x Str) (y Str) (i Int)) (! (=> (and (= (slen x) 1) (= (slen y) 1) (<= 0 i) (< i (slen s))) (= (sat (str_replace s x y) i) (ite (= (sat s i) (sat x 0)) (sat y 0) (sat s i)))) :pattern ((sat (str_replace s x y) i)))))", "STR"},
+	// F64: an int converts to a finite number
+	{[]string{"f64_isinf"}, "(assert (forall ((i Int) (sg Int)) (! (not (f64_isinf (f64_of_int i) sg)) :pattern ((f64_isinf (f64_of_int i) sg)))))", "F64"},
+	{[]string{"f64_isnan"}, "(assert (forall ((i Int)) (! (not (f64_isnan (f64_of_int i))) :pattern ((f64_isnan (f64_of_int i))))))", "F64"},
+	// F64: NaN compares false with everything
+	{[]string{"f64_isnan"}, "(assert (forall ((a F64) (b F64)) (! (=> (f64_lt a b) (and (not (f64_isnan a)) (not (f64_isnan b)))) :pattern ((f64_lt a b)))))", "F64"},
 	// F64: IEEE equality is symmetric
 	{[]string{"f64_eq"}, "(assert (forall ((a F64) (b F64)) (! (= (f64_eq a b) (f64_eq b a)) :pattern ((f64_eq a b)))))", "F64"},
 	// FMT: a number prints as at least one character
@@ -210,6 +216,12 @@ func (e *Engine) preambleSyms(in map[string]bool) string {
 	for _, k := range fks {
 		fmt.Fprintf(&consts, "(declare-const f64_k%d F64) ; %v\n", k, e.f64List[k])
 		syms["f64_lt"], syms["f64_le"], syms["f64_eq"] = true, true, true
+		if syms["f64_isinf"] && !math.IsInf(e.f64List[k], 0) {
+			fmt.Fprintf(&consts, "(assert (forall ((sg Int)) (! (not (f64_isinf f64_k%d sg)) :pattern ((f64_isinf f64_k%d sg)))))\n", k, k)
+		}
+		if syms["f64_isnan"] && !math.IsNaN(e.f64List[k]) {
+			fmt.Fprintf(&consts, "(assert (not (f64_isnan f64_k%d)))\n", k)
+		}
 	}
 	for _, i := range fks {
 		for _, j := range fks {
